@@ -196,6 +196,7 @@ var halfCloseable bool
 
 type rawClient struct {
 	id         int
+	served     chan struct{} // closed when handleConnection has returned (the connection is registered, or refused)
 	half       *halfConn // the broker's end, if it can be half-closed (life scenarios with cause halfclose)
 	conn       net.Conn
 	stopped    chan struct{}
@@ -329,6 +330,7 @@ type brokerCore struct {
 	keepConnack bool // rawfirst: the CONNACK answering the first packet is kept in front of CLOSED
 	ring        int  // size of a connection's ring buffers
 	pipelined   []byte
+	srvClosed   bool // `srvclose` has run: the server is gone, every event until `reset` is void
 	failWrite   bool // `failfirst`: the next first packet arrives on a connection that refuses writes
 	svr         *service.Server
 	clients     map[int]*rawClient
@@ -661,10 +663,73 @@ func (b *brokerCore) cb(id int) *service.OnPublishFunc {
 
 func (b *brokerCore) handle(ws []string) string {
 	b.rawConn, b.keepConnack = -1, false
+	if b.srvClosed && ws[0] != "reset" {
+		return "-"
+	}
 	switch ws[0] {
 	case "reset":
 		b.reset()
+		b.srvClosed = false
 		return "reset"
+	case "srvclose":
+		// Server.Close: every connection is stopped (not gracefully: wills are published); it has to
+		// return, every client sees its connection closed, every teardown finishes
+		ids := b.liveIDs()
+		// handleConnection registers a connection AFTER it has written the CONNACK: a Close that comes
+		// between the two does not see the connection (an observation outside the listed properties,
+		// DESIGN 14.4); wait until every handshake has returned
+		unknown := false
+		for _, id := range ids {
+			if c := b.clients[id]; c.served != nil {
+				select {
+				case <-c.served:
+				case <-time.After(brokerWait):
+				}
+			} else {
+				unknown = true
+			}
+		}
+		if unknown {
+			time.Sleep(100 * time.Millisecond)
+		}
+		done := make(chan struct{})
+		go func() {
+			defer close(done)
+			defer func() { recover() }()
+			b.svr.Close()
+		}()
+		groups := map[int][]string{}
+		closeOK := true
+		select {
+		case <-done:
+		case <-time.After(4 * brokerWait):
+			closeOK = false
+		}
+		for _, id := range ids {
+			c := b.clients[id]
+			c.pend = nil
+			ok := c.waitUntil(func() bool { return c.eof }, brokerWait)
+			c.take() // what else it was sent on the line on which it is closed is not observed
+			var items []string
+			if !ok {
+				items = append(items, "TIMEOUT")
+				c.conn.Close()
+			} else if c.stopped != nil {
+				select {
+				case <-c.stopped:
+				case <-time.After(brokerWait):
+					items = append(items, "STOP-TIMEOUT")
+				}
+			}
+			groups[id] = append(items, "CLOSED")
+			c.dead = true
+		}
+		b.srvClosed = true
+		res := b.render(groups, false)
+		if !closeOK {
+			res += " SRVCLOSE-TIMEOUT"
+		}
+		return res
 	case "rawfirst":
 		return b.rawFirst(atoi(ws[1]), unhex(ws[2]), ws[3] == "1")
 	case "race":
@@ -718,7 +783,11 @@ func (b *brokerCore) handle(ws []string) string {
 		stoppedChans[sv] = c.stopped
 		stoppedMu.Unlock()
 		b.clients[id] = c
-		go b.svr.VerifServe(sv)
+		c.served = make(chan struct{})
+		go func(served chan struct{}) {
+			defer close(served)
+			b.svr.VerifServe(sv)
+		}(c.served)
 		pipelinedDisconnect := false
 		if b.pipelined != nil {
 			bytes = append(bytes, b.pipelined...)
